@@ -27,12 +27,14 @@ CLAIMED = {
                 'emitted batch documents have pairwise distinct call ids for every id generator, and sequential with step != 0 is never refused; loop-back through the library\'s own dispatcher: '
                 'C07_loopback_value / C07_loopback_error (same code, message, data; class registered for the code else the client\'s base) / notifications and all-notification batches silent; notations interchangeable. '
                 'Tied by real sync and async clients in every notation x id generators (increasing, decreasing, random) x strict on/off, looped back into real sync and async dispatchers '
-                '(coroutines and plain functions), compared with the model end to end; notified methods run to completion under every interleaving (scheduler suite, C10_exactly_once).',
+                '(coroutines and plain functions), compared with the model end to end; notified methods run to completion under every interleaving (scheduler suite, C10_exactly_once). '
+                'Over HTTP: C07_value_over_http / C07_error_over_http / C07_notification_over_http for every client backend x server integration (suite httploop).',
                 note='Kernel + standard axioms; composition of the C05 round-trip theorems, the dispatcher theorems (C02, C12) and the client model; generators.uuid (D7) is a recorded finding.'),
     'C08': dict(ref='§4 C08', text='Lean theorems: single responses — id mismatch rejected in strict mode, otherwise related; C08_batch_accept_iff (strict: accepted iff the non-null response ids are exactly the call ids, '
                 'duplicate-free by the strict BatchResponse), C08_positional_attribution (after acceptance the id-carrying responses are in call order whatever the server\'s order), bad bodies raise the deserialisation error, '
                 'server and batch-level errors are raised. Tied by every response document a server could return for batches of <=3 (quick) / <=4 (thorough) calls plus notifications: permutations, omissions, duplications, additions, '
-                'type-confused and null ids, batch-level errors, success/error mixes; singles x every id relation x strict on/off x sync/async.',
+                'type-confused and null ids, batch-level errors, success/error mixes; singles x every id relation x strict on/off x sync/async. '
+                'At the HTTP backends: C08_foreign_content_type_refused, C18_backends_accept_documented (suite httploop: status x Content-Type header x body x request kind x raise_for_status x strict).',
                 note='Kernel + standard axioms; the ordering step is modelled as bucketing by call position (equal to the stable list.sort by position used in the code; checked by the correspondence run).'),
     'C09': dict(ref='§4 C09', text='Lean theorems over the retry loop (structural recursion on the remaining delays — termination is the bound): sends <= attempts+1, re-sent iff listed outcome and attempts remain (C09_resend_iff), '
                 'sleeps = delays.take (sends-1), final = outcome of the last attempt, unlisted outcomes immediate, exhaustion; the three backoff families\' delay formulas for any numeric carrier; per-request strategy wins. '
@@ -42,7 +44,7 @@ CLAIMED = {
     'C19': dict(ref='§4 C19', text='Lean theorems: attempt shape (begin per tracer in order, then exactly one completion per tracer: end iff returned, error iff raised, same context), all attempts traced, '
                 'begin and completion counts equal the number of sends per tracer, the outcome the tracers saw last is the one reaching the caller. Tied by scripts over 6 per-attempt outcome kinds (incl. BaseException) '
                 'x strategies of 0..3 attempts x 0..3 tracers x single / batch / notification x caller-supplied vs default trace context, sync and async.',
-                note='Kernel + standard axioms; tracers that raise are outside the property.'),
+                note='Kernel + standard axioms; tracers that raise are outside the model; what the model says about the others (one completion per begin) is still compared when the last tracer\'s completion hook raises.'),
     'C10': dict(ref='§4 C10', text='Lean theorems: schedule_independence / complete_schedule_results (any number of processes, segments, any schedule) for non-interfering processes; '
                 'the dispatcher\'s element handlers are such processes (handler_segments_noninterfering); corollaries C10_order_and_identity, C10_async_batch_equals_sync, '
                 'C10_exactly_once (per-element log projection = the element\'s own events, every one once, under every complete schedule) and C10_sequential_no_overlap. '
@@ -52,7 +54,7 @@ CLAIMED = {
     'C11': dict(ref='§4 C11', text='Lean theorems C11_dispatchers_agree / C11_same_executions / C11_plain_functions_in_async: dispatchAsync (separate definition, through gather and the scheduler) returns exactly dispatch\'s document and codes '
                 'for every configuration, load result, context, placement of suspension points and complete schedule, with the same per-element executions. '
                 'Every case of the dispatch, registry and async suites runs on both real halves (plus the async dispatcher with plain functions); besides model-vs-half the halves are diffed directly. '
-                'Client twins: one model per role, both implementations checked against it (suites of C07-C09, C19) and against each other.',
+                'Client twins: one model per role, both implementations checked against it (suites of C07-C09, C19) and against each other; the synchronous and asynchronous HTTP backends against one model of `_request` (suite httploop).',
                 note='Kernel + standard axioms; the twin diff is an implementation-side oracle; asyncio assumed as for C10.'),
     'C12': dict(ref='§4 C12', text='Lean theorems: chain order for n pass-through middlewares (enter 0..n-1, inner, leave n-1..0), short circuit at position k, chain result is what is sent, '
                 'per-element logs concatenate, handler fold (generic then per original code, each once), handlers never on success or rejected documents. '
@@ -93,11 +95,13 @@ CLAIMED = {
     'C18': dict(ref='§4 C18', text='Lean theorems over the three _rpc_handle functions: every documented media type passes the gate (tied to REQUEST_CONTENT_TYPES by the constants translator), every other one is answered 415 with an empty log, '
                 'an accepted request is answered with exactly the dispatcher\'s document, the JSON content type and status_by_error(codes) (200 + empty body for nothing), never 500 with well-behaved middlewares (via C01), '
                 'undecodable bodies 400, the integrations coincide. Tied through the aiohttp TestClient, flask test_client and werkzeug Client over media types (documented, charset / case variants, near misses, missing) '
-                'x bodies (valid, invalid, batch, notification, non-UTF-8) x status functions x prefixes.',
+                'x bodies (valid, invalid, batch, notification, non-UTF-8) x status functions x prefixes. The client\'s HTTP backends (requests, httpx sync/async, aiohttp) are modelled as well (Backend.lean) and composed with the integrations: '
+                'C18_http_transparent (client backend after server integration = the loop-back transport, whatever parameters the framework appends to the content type), the two content-type handshakes, C18_error_status_masks_reply; '
+                'tied by suite httploop (scripted HTTP replies through the real HTTP libraries; real pjrpc clients against the real flask / werkzeug / aiohttp integrations).',
                 note='Kernel + standard axioms; the frameworks\' header parsing and routing are inputs (the parsed media type is computed independently by the harness); the Flask JSON-provider shadowing of the encoder (D27) is a recorded finding.'),
     'C20': dict(ref='§4 C20', text='Lean theorems: the queue discipline in closed form (C20_round_robin: first |q| calls in order of addition, every later block of |keep q| calls by the surviving patches in the same order; '
                 'C20_once_exactly_once; C20_round_robin_mod), and the state machine: C20_step (head answers, that queue steps, every other queue and record untouched, the call recorded), add / replace / remove on the current queue, '
-                'request id carried incl. 0 and "", unpatched method -32601, unpatched endpoint passthrough / refused, batches element-wise. Tied by operation / call histories through the real PjRpcMocker '
+                'request id carried incl. 0 and "", unpatched method -32601, unpatched endpoint passthrough / refused, batches element-wise, calls recorded even when the reply cannot be built (raising callback: C20_recorded_even_if_reply_fails). Tied by operation / call histories through the real PjRpcMocker '
                 'patching sync and async transport methods and the library\'s requests backend, against the model and an independent reference simulator.',
                 note='Kernel + standard axioms; dicts are modelled as association lists (absent queue = empty queue abstraction proved invariant under cleanup); histories are well-formed (replace / remove address existing patches).'),
     'C05': dict(ref='§4 C05', text='Lean theorems over the message model: from_json∘to_json = id up to falsy-params normalisation for requests, '
